@@ -68,15 +68,18 @@ def setup_controller(u, qual, control_type, display_on=None):
 
     u.it.abstract[SC + "newton_control.NewtonController.newton_steps"] = newton_steps
     u.it.abstract["pygradflow.implicit_func.ImplicitFunc.value_at"] = value_at
-    # display: None (no inner display) or a Display object, as compute_step sets it up
+    # the inner (per Newton step) display is an observer: display_step is seen through its contract
+    # "raises nothing, writes only observer state", proved from the real code in unit C09.display_step
     if display_on is None:
         display_on = u.path.choose("inner display on")
-    if display_on:
-        ctrl.fields["display"] = u.obj("pygradflow.display.Display", cols=[], interval=None, timer=None, last_state=None)
-        ctrl.fields["res_func"] = None
-        u.it.abstract["pygradflow.display.Display.row"] = lambda it, self_, state: Opaque("str")
-    else:
-        ctrl.fields["display"] = None
+    ctrl.fields["display"] = u.obj("pygradflow.display.Display", cols=[], interval=None, timer=None, last_state=None) if display_on else None
+    log["display_calls"] = 0
+
+    def display_step(it, self_, iteration, step):
+        log["display_calls"] += 1
+        return None
+
+    u.it.abstract[SC + "step_control.StepController.display_step"] = display_step
     timer = u.construct("pygradflow.timer.Timer", params.fields["time_limit"])
     return params, problem, ctrl, iterate, rho, dt, timer, log, display_on
 
@@ -190,3 +193,40 @@ def dispatch(u):
     if kind == "ok":
         u.ensure(val.cls.name == expect[names[k]], f"dispatch:{names[k]}:class")
         u.ensure(val.fields.get("lamb") is params.fields["lamb_init"], f"dispatch:{names[k]}:lamb==lamb_init")
+
+
+@unit("C09.display_step", ["C09", "C06"], [SC + "step_control.StepController.display_step", "pygradflow.display.StateData.__init__", "pygradflow.display.StateData.__getitem__", "pygradflow.display.StateData.__setitem__", "pygradflow.display.Display.row", "pygradflow.display.inner_display", "pygradflow.display.AttrColumn.content", "pygradflow.display.StateAttr.__call__"], config={"max_paths": 500})
+def display_step(u):
+    """observer contract of the inner display: never raises (any log level, display on or off), and writes nothing
+    but the controller's display object"""
+    params = mk_params(u)
+    problem = mk_problem(u)
+    ctrl = u.construct(SC + "fixed_control.FixedStepSizeController", problem, params)
+    on = u.path.choose("inner display on")
+    if on:
+        ctrl.fields["display"] = u.call("pygradflow.display.inner_display", problem, params)
+        ctrl.fields["res_func"] = PyFuncRaise()
+    else:
+        ctrl.fields["display"] = None
+    before = dict(ctrl.fields)
+    trial = mk_iterate(u, problem, params, "trial", evaluated=False)
+    diff = u.real("diff")
+    sr = u.obj(SC + "solver.step_solver.StepResult", orig_iterate=trial, iterate=trial, active_set=Opaque("active_set"), rcond=None, diff=diff)
+    k = u.int("newton_iteration")
+    kind, val = u.raised(lambda: u.method(ctrl, "display_step", k, sr))
+    u.ensure(kind == "ok", "display_step:raises_nothing", desc=("" if kind == "ok" else f"escaping {val.exc!r} raised at {val.origin}"))
+    changed = [f for f in ctrl.fields if ctrl.fields[f] is not before.get(f)]
+    u.ensure(not changed, "display_step:writes_no_controller_state", desc=f"changed {changed}")
+    u.cover("end")
+
+
+def PyFuncRaise():
+    """res_func: may raise anything (it evaluates the problem at the trial point) - the display must swallow it"""
+    from pyvc.interp import PyFunc
+
+    def f(it, *a):
+        if it.path.choose("res_func raises"):
+            raise PyRaise(eval_error(it), origin="res_func")
+        return it.path.real("residuum")
+
+    return PyFunc(f, "res_func")
